@@ -38,6 +38,15 @@ Lemma Forall2_app_one {A B} (P : A -> B -> Prop) l l' x y :
   Forall2 P l l' -> P x y -> Forall2 P (l ++ [x]) (l' ++ [y]).
 Proof. intros H1 H2. apply Forall2_app; [assumption|constructor; [assumption|constructor]]. Qed.
 
+Lemma NoDup_app_one {A} (l : list A) x : NoDup l -> ~ In x l -> NoDup (l ++ [x]).
+Proof.
+  induction l as [|y l IH]; intros Hn Hx; simpl.
+  - constructor; [intros []|constructor].
+  - inversion Hn; subst. constructor.
+    + intro Hin. apply in_app_or in Hin. destruct Hin as [Hin|[<-|[]]]; [contradiction|]. apply Hx; left; reflexivity.
+    + apply IH; [assumption|]. intro Hin. apply Hx; right; exact Hin.
+Qed.
+
 Section RegProofs.
   Variable Sc : Type.
   Notation heapT := (heap Sc).
@@ -143,6 +152,51 @@ Section RegProofs.
         * rewrite (alookup_app_none _ _ _ Ek) in Hv. simpl in Hv.
           destruct (Nat.eqb k a) eqn:Eka; [|discriminate]. apply Nat.eqb_eq in Eka. subst k.
           right. apply reach_root.
+  Qed.
+
+  (* ---- each object is dumped exactly once ---- *)
+  Lemma amem_In {A} k (l : list (addr * A)) : amem k l = true <-> In k (map fst l).
+  Proof.
+    unfold amem. induction l as [|[k' v] l IH]; simpl.
+    - split; [discriminate|contradiction].
+    - destruct (Nat.eqb k k') eqn:E.
+      + apply Nat.eqb_eq in E. subst. split; auto.
+      + apply Nat.eqb_neq in E. rewrite IH. split; [auto|]. intros [H|H]; [congruence|exact H].
+  Qed.
+
+  Definition to_reg_keys_ok (n : nat) := forall a c c',
+    to_reg n h a c = Some c' -> NoDup (map fst c) ->
+    NoDup (map fst c') /\ (forall k, In k (map fst c') -> In k (map fst c) \/ rank k <= rank a).
+
+  Lemma thread_ctx_keys n (IH : to_reg_keys_ok n) : forall rs c c',
+    thread_ctx (to_reg n h) rs c = Some c' -> NoDup (map fst c) ->
+    NoDup (map fst c') /\ (forall k, In k (map fst c') -> In k (map fst c) \/ exists r, In r rs /\ rank k <= rank r).
+  Proof.
+    induction rs as [|r rs IHrs]; intros c c' H Hn.
+    - unfold thread_ctx in H; simpl in H. inversion H; subst. split; auto.
+    - rewrite thread_ctx_cons in H. destruct (to_reg n h r c) as [c1|] eqn:E1; [|discriminate].
+      destruct (IH r c c1 E1 Hn) as [N1 K1]. destruct (IHrs c1 c' H N1) as [N2 K2].
+      split; [exact N2|]. intros k Hk. destruct (K2 k Hk) as [H1|(r0 & Hin & Hle)].
+      + destruct (K1 k H1) as [H0|Hle]; [left; exact H0|right; exists r; split; [left; reflexivity|exact Hle]].
+      + right; exists r0; split; [right; exact Hin|exact Hle].
+  Qed.
+
+  Lemma to_reg_keys : forall n, to_reg_keys_ok n.
+  Proof.
+    induction n as [|n IH]; intros a c c' H Hn; [discriminate H|].
+    simpl in H. destruct (amem a c) eqn:Ea.
+    - inversion H; subst. split; auto.
+    - destruct (alookup a h) as [o|] eqn:Eo; [|discriminate].
+      destruct (thread_ctx (to_reg n h) (o_refs o) c) as [c1|] eqn:E1; [|discriminate].
+      inversion H; subst c'. destruct (thread_ctx_keys n IH _ _ _ E1 Hn) as [N1 K1].
+      rewrite map_app. simpl. split.
+      + apply NoDup_app_one; [exact N1|]. intro Hin.
+        destruct (K1 a Hin) as [H0|(r & Hr & Hle)].
+        * apply amem_In in H0. congruence.
+        * pose proof (Hrank a o r Eo Hr). lia.
+      + intros k Hk. apply in_app_or in Hk. destruct Hk as [Hk|[<-|[]]]; [|right; lia].
+        destruct (K1 k Hk) as [H0|(r & Hr & Hle)]; [left; exact H0|].
+        right. pose proof (Hrank a o r Eo Hr). lia.
   Qed.
 
   (* ---- from_registry ---- *)
@@ -347,6 +401,27 @@ Section Iso.
         destruct (Rr id Hm) as [H0|H0]; [discriminate H0|exact H0].
       + unfold load_map. unfold loadedP in Hid. rewrite Hid. reflexivity.
   Qed.
+
+  (* the dump has exactly one entry per reachable object, and nothing else *)
+  Theorem dump_once : forall fuel c, rank root < fuel ->
+    to_registry fuel h root = Some c ->
+    NoDup (map fst c) /\ (forall k, In k (map fst c) <-> reachable h root k)
+    /\ (forall k e, alookup k c = Some e -> alookup k h = Some e).
+  Proof.
+    intros fuel c Hfuel Hc.
+    assert (F0 : ctx_faithful Sc h []) by (intros a e H; discriminate H).
+    assert (C0 : ctx_closed Sc []) by (intros a e r H; discriminate H).
+    destruct (to_reg_spec Sc h rank Hrank fuel root [] Hfuel Hdef F0 C0) as (c1 & E & F & C & _ & M & Rr).
+    unfold to_registry in Hc. rewrite E in Hc. inversion Hc; subst c1.
+    split; [|split].
+    - apply (to_reg_keys Sc h rank Hrank fuel root [] c E). constructor.
+    - intro k. split.
+      + intro Hk. apply amem_In in Hk. destruct (Rr k Hk) as [H0|H0]; [discriminate H0|exact H0].
+      + intro Hk. apply amem_In. induction Hk as [|a b Ha IH (o & Ho & Hin)]; [exact M|].
+        apply amem_true in IH. destruct IH as [e He]. pose proof (F _ _ He) as Hh.
+        rewrite Hh in Ho. inversion Ho; subst o. eapply C; eauto.
+    - exact F.
+  Qed.
 End Iso.
 
 (* ------------------------------------------------------------------------------------------ *)
@@ -390,6 +465,18 @@ Section Paths.
     rewrite (iso_root _ _ _ _ _ _ Hiso) in F1, F2. rewrite F1, F2. split.
     - intros ->; reflexivity.
     - intro E. inversion E. eapply (iso_inj _ _ _ _ _ _ Hiso); eauto.
+  Qed.
+
+  (* every value that can be read by following references from an object is the same after loading *)
+  Hypothesis Hdef : forall a, reachable h root a -> alookup a h <> None.
+  Theorem unfold_preserved : forall fuel a,
+    reachable h root a -> unfold fuel h' (f a) = unfold fuel h a.
+  Proof.
+    induction fuel as [|n IH]; intros a Ha; simpl; [reflexivity|].
+    destruct (alookup a h) as [o|] eqn:Eo; [|exfalso; exact (Hdef a Ha Eo)].
+    rewrite (iso_obj _ _ _ _ _ _ Hiso a o Ha Eo). simpl. f_equal.
+    rewrite map_map. apply map_ext_in. intros b Hb. apply IH.
+    eapply reach_step; [exact Ha|]. exists o; split; assumption.
   Qed.
 
   (* the loaded graph contains nothing else: every loaded object is the image of a dumped one *)
